@@ -5,8 +5,18 @@
 use std::path::Path;
 
 fn main() {
+    // the repository is wherever Cargo.toml's coap-lite path dependency points
     let manifest = std::env::var("CARGO_MANIFEST_DIR").unwrap();
-    let repo = Path::new(&manifest).join("../../repo");
+    let toml = std::fs::read_to_string(Path::new(&manifest).join("Cargo.toml")).unwrap_or_default();
+    let repo_path = toml
+        .lines()
+        .find(|l| l.trim_start().starts_with("coap-lite"))
+        .and_then(|l| l.split("path = \"").nth(1))
+        .and_then(|r| r.split('"').next())
+        .unwrap_or("/repo")
+        .to_string();
+    let repo = if Path::new(&repo_path).is_absolute() { Path::new(&repo_path).to_path_buf() } else { Path::new(&manifest).join(&repo_path) };
+    println!("cargo:rerun-if-changed=Cargo.toml");
     let guard_on = std::env::var("CARGO_CFG_COAP_LITE_VERIF").is_ok()
         || std::env::var("CARGO_ENCODED_RUSTFLAGS").map(|f| f.contains("coap_lite_verif")).unwrap_or(false)
         || std::env::var("RUSTFLAGS").map(|f| f.contains("coap_lite_verif")).unwrap_or(false);
